@@ -201,8 +201,9 @@ def oracle(case, o):
     bad = []
     cur = [dict(s) for s in o["init"]]
     ok = [s["consistent"] is True and s["consistentData"] is True for s in cur]   # inside the invariant's domain so far
-    for s in cur:
-        if s["consistentData"] is not True:
+    malformed = set(case.get("malformed", []))
+    for k, s in enumerate(cur):
+        if s["consistentData"] is not True and k not in malformed:
             bad.append(("C08:generator:inconsistent-network", "generated network fails is_consistent()"))
     for op, st in zip(case["ops"], o["steps"]):
         kind, i = op[0], op[1]
@@ -368,13 +369,18 @@ def gen_history(rng, thorough):
                             for t in descs[b]["net"]["tensors"]:
                                 if t[4] == old:
                                     t[4] = ea[0]
+    malformed = []
+    if rng.random() < 0.10:
+        k = rng.randrange(nn)
+        if malform(rng, descs[k]["net"]):
+            malformed.append(k)
     nets = [G.build_tn(n["net"], n["data"]) for n in descs]
     alive = [True] * nn
     ops = []
     for _ in range(rng.randint(1, 10)):
         i = rng.randrange(nn)
-        if not alive[i]:
-            continue
+        if not alive[i] or i in malformed:
+            continue      # a malformed network only has its initial state compared (is_consistent must reject it)
         tn = nets[i]
         r = rng.random()
         try:
@@ -420,7 +426,7 @@ def gen_history(rng, thorough):
             op = ["transpose", i, axes]
         else:
             j = rng.randrange(nn)
-            if not alive[j]:
+            if not alive[j] or j in malformed:
                 continue
             other = nets[j]
             try:
@@ -462,7 +468,29 @@ def gen_history(rng, thorough):
                 alive[i] = False
     if not ops:
         ops = [["transpose", 0, None]]
-    return {"op": "net.history", "nets": descs, "ops": ops}
+    case = {"op": "net.history", "nets": descs, "ops": ops}
+    if malformed:
+        case["malformed"] = malformed
+    return case
+
+
+def malform(rng, net):
+    """Turn a generated network into one that `is_consistent()` has to reject: a bond that refers to a tensor fewer
+    times than the tensor has axes on it (the multiplicity test), or one axis of a bond with a different dimension."""
+    if rng.random() < 0.7:
+        cands = [b for b in net["bonds"] if len(b[2]) >= 3]
+        if not cands:
+            return False
+        b = rng.choice(cands)
+        b[2].remove(rng.choice(b[2]))
+        return True
+    cands = [t for t in net["tensors"] if t[2] and t[0] == -1]
+    if not cands:
+        return False
+    t = rng.choice(cands)
+    k = rng.randrange(len(t[2]))
+    t[2][k] = t[2][k] + 1
+    return True
 
 
 def boundary_cases():
@@ -479,6 +507,12 @@ def boundary_cases():
                                                                       ["transpose", 1, [-1, 0, 1]], ["transpose", 1, [2, 0, 1]], ["merge", 1, 1, [[0, 0]]]]}
     yield {"op": "net.history", "nets": copy.deepcopy(nets), "ops": [["rename_tensor", 0, 0, -1], ["rename_tensor", 0, 0, 0], ["rename_tensor", 0, 0, -7],
                                                                       ["rename_bond", 0, 0, 1], ["rename_bond", 0, 1, -1], ["merge", 0, 0, []], ["merge", 0, 1, [[0, 0], [1, 0]]]]}
+    # is_consistent() used to accept a bond referring to a tensor fewer times than the tensor has axes on it; a valid
+    # merge then produced a network failing its own check (fixed in /repo: the multiplicities are compared)
+    weak = {"tensors": [[0, 0, [2], [7], 0], [-1, -1, [2, 2], [7, 7], None]], "bonds": [[7, 7, [-1, 0]]]}
+    vec = {"tensors": [[5, 5, [2], [3], 1], [-1, -1, [2], [3], None]], "bonds": [[3, 3, [-1, 5]]]}
+    yield {"op": "net.history", "nets": [{"net": weak, "data": [[0, [1, 2], [2]]]}, {"net": vec, "data": [[1, [3, 4], [2]]]}],
+           "ops": [["merge", 0, 1, [[0, 0]]]], "malformed": [0]}
     clash = copy.deepcopy(nets)
     clash[1]["data"][0][0] = 0
     clash[1]["net"]["tensors"][0][4] = 0
